@@ -88,9 +88,10 @@ def verdict(name: str, strict: bool) -> Tuple[str, Optional[str]]:
 # --------------------------------------------------------------------------------------------------
 
 
-def parse_txt(data: bytes) -> Dict[bytes, Optional[bytes]]:
-    """key -> value bytes; None for a key without '=' and (as the library documents) for an empty value.
-    First occurrence of a key wins (s.6.4)."""
+def parse_txt(data: bytes, fold_empty: bool = True) -> Dict[bytes, Optional[bytes]]:
+    """key -> value bytes; None for a key without '='.  RFC 6763 s.6.4 tells "key" (no value) from "key=" (empty value): with
+    fold_empty=False an empty value stays b""; with fold_empty=True it becomes None, which is how the library documents its
+    own reading.  First occurrence of a key wins (s.6.4)."""
     out: Dict[bytes, Optional[bytes]] = {}
     i = 0
     n = len(data)
@@ -103,7 +104,7 @@ def parse_txt(data: bytes) -> Dict[bytes, Optional[bytes]]:
         i += ln
         if b"=" in item:
             k, v = item.split(b"=", 1)
-            val: Optional[bytes] = v if v else None
+            val: Optional[bytes] = v if (v or not fold_empty) else None
         else:
             k, val = item, None
         if k not in out:
@@ -111,7 +112,7 @@ def parse_txt(data: bytes) -> Dict[bytes, Optional[bytes]]:
     return out
 
 
-def expected_txt(props: List[Tuple[object, object]]) -> Dict[bytes, Optional[bytes]]:
+def expected_txt(props: List[Tuple[object, object]], fold_empty: bool = True) -> Dict[bytes, Optional[bytes]]:
     """What a properties dict (given as ordered (key, value) pairs) means, as bytes."""
     out: Dict[bytes, Optional[bytes]] = {}
     for k, v in props:
@@ -122,7 +123,7 @@ def expected_txt(props: List[Tuple[object, object]]) -> Dict[bytes, Optional[byt
             vb = v
         else:
             vb = str(v).encode("utf-8")
-        if vb == b"":
+        if vb == b"" and fold_empty:
             vb = None
         if kb not in out:
             out[kb] = vb
